@@ -13,8 +13,9 @@ cnt = collections.Counter(); bad = []
 for i, l in enumerate(lines[:min(len(il), len(ml))]):
     m = ml[i].split(" | ")[0]
     cnt[il[i].split()[0] if il[i] else ""] += 1
-    if il[i] != m: bad.append((l, il[i], ml[i]))
-    elif " | spec=" in ml[i] and ml[i].split(" | spec=")[1].split(" | ")[0] != il[i]: bad.append((l, il[i], ("SPECF7 " if "tags=f7" in ml[i] else "SPEC ") + ml[i].split(" | spec=")[1]))
+    iv = il[i].split(" | ")[0]
+    if iv != m: bad.append((l, il[i], ml[i]))
+    elif " | spec=" in ml[i] and ml[i].split(" | spec=")[1].split(" | ")[0] != iv: bad.append((l, il[i], ("SPECF7 " if "tags=f7" in ml[i] else "SPEC ") + ml[i].split(" | spec=")[1]))
 print(dict(cnt)); print("disagreements", len(bad))
 bad.sort(key=lambda t: len(t[0]))
 print(collections.Counter((a.split()[0], b.split()[0]) for _, a, b in bad))
